@@ -1715,6 +1715,8 @@ class Series(ContainerOperand):
         if key:
             cfs = key(self)
             cfs_values = cfs if cfs.__class__ is np.ndarray else cfs.values
+            if len(cfs_values) != len(self.values):
+                raise RuntimeError('key function returned a container of invalid length')
         else:
             cfs_values = self.values
 
